@@ -11,7 +11,7 @@ from common import sx, ok, cname, cnum
 from units import BLOCK
 
 ID = 'C07'
-LEVEL = 'translation_validation'
+LEVEL = 'proof'
 B = BLOCK['C07']
 U_CHECK, U_INV, U_FEAS, U_AUG, U_ADJ, U_LOOP = B, B + 1, B + 2, B + 3, B + 4, B + 5
 LOOP_FUEL = 600
@@ -19,7 +19,7 @@ LOOP_FUEL = 600
 # present code computes.  A different valid choice is not a violation of C07, so a lost tie is counted (coverage.model_vs_impl_
 # disagreements, notes) while the output itself is judged by the verified checker.  Set True when the claim is raised to level
 # 'proof' (then the theorem must speak about the code on every explored input, and a lost tie fails the check).
-LOOP_TIE_STRICT = False
+LOOP_TIE_STRICT = True
 TIE = {'proportional.BiproportionalEvaluator.evaluate': 'per-output validation by the proved-sound certificate checker (cert_ok) '
                                                         'and, on refusals, by the verified feasibility reference',
        'whole evaluate <-> Model/BipropLoop.v (the function of the partial-correctness theorems C07_evaluate_[total_]partial_correct)':
@@ -44,8 +44,8 @@ PARTIAL = ['termination of tie-and-transfer for all inputs is not proved (C07_te
            'bound per instance (exploration); proved: partial correctness of the whole-loop model for all inputs and the transfer bound '
            'flaw/2 (C07_transfer_progress); the number of consecutive multiplier updates is not bounded',
            'whole-loop model = code only as far as the correspondence stream explored; a code change that picks another valid output '
-           'where cells tie loses the tie without violating C07: counted (model_vs_impl_disagreements), judged by the checker '
-           '(LOOP_TIE_STRICT makes it fail the check)',
+           'where cells tie loses the tie without violating C07: its outputs are judged by the checker and, when all are certified, the '
+           'verdict is a broken correspondence without a failing input (LOOP_TIE_STRICT)',
            '"refuses only when no seat matrix exists" is decided per instance (verified cut / matrix certificates), not for all inputs',
            'the row <-> HighestAverages model equality is stated (C07_row_is_highest_averages_full_statement) and proved in its '
            'declarative min-max form (C07_row_divisor_apportionment) only',
@@ -485,9 +485,14 @@ def judge_loop(ctx, stream, runs, holds):
             ctx.disagreements += 1
             ctx.dist['loop: OUTCOME differs from the model (tie lost on this case)'] += 1
             if LOOP_TIE_STRICT:
+                # the theorems are about the model: where the code leaves the model they no longer speak about the code.  The output
+                # of this very case is still judged by the verified checker (a failing one is reported by judge() with the case as
+                # replay); if every explored output is certified the verdict is a broken tie without a failing input.
                 nd += 1
-                io = ok(enc_mat(r[1][0])) if r[0] == 'ok' else common.err(r[1])
-                ctx.report(stream + '/whole-loop', dict(c, _class='loop-model'), io, mo[:2000], 'whole-loop model: ' + why, known_class)
+                if not any(b[0].startswith('correspondence whole-loop') for b in ctx.broken_items):
+                    io = ok(enc_mat(r[1][0])) if r[0] == 'ok' else common.err(r[1])
+                    ctx.broken('correspondence whole-loop model (Model/BipropLoop.v; theorems C07_evaluate_partial_correct, C07_evaluate_total_partial_correct)',
+                               'stream %s: %s; case %s; implementation %s; model %s' % (stream, why, json.dumps(c)[:1500], io[:600], mo[:600]))
             elif sum(1 for x in ctx.notes if x.startswith('whole-loop model: tie lost')) < 3:
                 ctx.notes.append('whole-loop model: tie lost - %s (the output itself is judged by the checker): %s' % (why, json.dumps(c)[:300]))
     return nd
@@ -708,9 +713,9 @@ def explore(ctx, widen=1):
     judge(ctx, 'exhaustive-2x2', list(gen_exhaustive()), limit)
     judge(ctx, 'all-zero', list(gen_all_zero()), limit)
     ctx.exhaustive = False
-    chunked(ctx, 'random', gen_random(ctx.rng, ctx.n(10000, 120000) * widen), limit)
-    chunked(ctx, 'boundary', gen_boundary(ctx.rng, ctx.n(4000, 40000) * widen), limit)
-    chunked(ctx, 'same-labels', (dict(c, labels='ints') for c in gen_random(ctx.rng, ctx.n(2500, 30000) * widen, tiny_share=0.2)), limit)
+    chunked(ctx, 'random', gen_random(ctx.rng, ctx.n(6000, 120000) * widen), limit)
+    chunked(ctx, 'boundary', gen_boundary(ctx.rng, ctx.n(2500, 40000) * widen), limit)
+    chunked(ctx, 'same-labels', (dict(c, labels='ints') for c in gen_random(ctx.rng, ctx.n(1500, 30000) * widen, tiny_share=0.2)), limit)
     kw = dict(limit=10)
     ctx.differential('augment-step', gen_aug(ctx.rng, ctx.n(800, 8000)), aug_model_line, aug_impl, canon=aug_canon, **kw)
     ctx.differential('adj-coef', gen_adj(ctx.rng, ctx.n(1500, 15000)), adj_model_line, adj_impl, **kw)
